@@ -25,6 +25,8 @@ structure WlInv (s : WL) : Prop where
   burnt : s.bank.burned + s.bank.pool = s.feesPaid
   /-- stored addresses are valid ones (the immutable whitelist stores raw strings) -/
   valid : s.kind ≠ .immutable → AllValid s.members ∧ ∀ g ∈ s.stages, AllValid g.members
+  /-- the same for every other denom: only what callers attached to fee-less messages -/
+  other : s.otherBal = s.strayOther
 
 theorem mustPay_mayPay {funds : List Coin} {d p : Nat} (h : mustPay funds d = .ok p) : mayPay funds d = .ok p ∧ p ≠ 0 := by
   unfold mustPay at h
@@ -70,9 +72,13 @@ theorem fee_bank {b bank : Bank} {funds : List Coin} {self fee payment : Nat} {m
     simp only [settle, applyMsgs, Except.ok.injEq] at hbank; subst hbank
     exact ⟨by simp, by simp⟩
 
-theorem incr_inv {s s' : WL} {funds : List Coin} {limit : Nat} (hi : WlInv s) (hk : s.kind ≠ .immutable)
-    (h : execIncreaseLimit s funds limit = .ok s') : WlInv s' := by
+theorem incr_inv {s s' : WL} {al : Bool} {funds : List Coin} {limit : Nat} (hi : WlInv s) (hk : s.kind ≠ .immutable)
+    (h : execIncreaseLimit s al funds limit = .ok s') : WlInv s' := by
   unfold execIncreaseLimit at h
+  split at h
+  · exact absurd h (by simp)
+  split at h
+  · exact absurd h (by simp)
   split at h
   · exact absurd h (by simp)
   rename_i hg
@@ -94,23 +100,24 @@ theorem incr_inv {s s' : WL} {funds : List Coin} {limit : Nat} (hi : WlInv s) (h
   simp only [Except.ok.injEq] at h; subst h
   have hb := fee_bank hpay hfee hmsgs hbank
   have hc := hi.capacity hk
-  refine ⟨hi.count_total, hi.flat_sorted, hi.stages_ok, fun _ => ⟨by simp only []; omega, hg.2⟩, ?_, ?_, ?_, hi.valid⟩
+  refine ⟨hi.count_total, hi.flat_sorted, hi.stages_ok, fun _ => ⟨by simp only []; omega, hg.2⟩, ?_, ?_, ?_, hi.valid, hi.other⟩
   · simp only []
     rw [hi.fees, hfee]
     exact upgradeFee_telescope s.kind (Nat.le_of_lt hg.1)
   · simp only []; rw [hb.1]; exact hi.bal
   · simp only []; rw [hb.2, hi.burnt]
 
-/-- attaching funds to a message that charges nothing changes the balance and the `stray` ghost alike -/
-theorem tipped_inv {s : WL} (tip : Nat) (hi : WlInv s) : WlInv (tipped s tip) := by
-  refine ⟨hi.count_total, hi.flat_sorted, hi.stages_ok, hi.capacity, hi.fees, ?_, hi.burnt, hi.valid⟩
-  simp only [tipped]; rw [hi.bal]
+/-- attaching funds to a message that charges nothing changes the balances and the `stray` ghosts alike -/
+theorem tipped_inv {s : WL} (tip : Tip) (hi : WlInv s) : WlInv (tipped s tip) := by
+  refine ⟨hi.count_total, hi.flat_sorted, hi.stages_ok, hi.capacity, hi.fees, ?_, hi.burnt, hi.valid, ?_⟩
+  · simp only [tipped]; rw [hi.bal]
+  · simp only [tipped]; rw [hi.other]
 
 theorem AddSpec.bound_le {cfg limit l n st a n' st' a'} (r : AddSpec cfg limit l n st a n' st' a') :
     st.length ≤ st'.length := by have := r.count; have := r.mono; omega
 
-theorem add_inv {s s' : WL} {sender tip stage : Nat} {ms : List Member} (hi : WlInv s) (hk : s.kind ≠ .immutable)
-    (h : execAddMembers s sender tip stage ms = .ok s') : WlInv s' := by
+theorem add_inv {s s' : WL} {al hf : Bool} {tip : Tip} {stage : Nat} {ms : List Member} (hi : WlInv s) (hk : s.kind ≠ .immutable)
+    (h : execAddMembers s al hf tip stage ms = .ok s') : WlInv s' := by
   unfold execAddMembers at h
   split at h
   · exact absurd h (by simp)
@@ -131,7 +138,7 @@ theorem add_inv {s s' : WL} {sender tip stage : Nat} {ms : List Member} (hi : Wl
     apply tipped_inv
     have hset := stageTotal_set s.stages stage g { g with members := st, count := g.count + added } hg
     have hv := hi.valid hk
-    refine ⟨?_, hi.flat_sorted, ?_, fun _ => ⟨r.cap rfl hc.1, hc.2⟩, hi.fees, hi.bal, hi.burnt, fun _ => ⟨hv.1, ?_⟩⟩
+    refine ⟨?_, hi.flat_sorted, ?_, fun _ => ⟨r.cap rfl hc.1, hc.2⟩, hi.fees, hi.bal, hi.burnt, fun _ => ⟨hv.1, ?_⟩, hi.other⟩
     rotate_right
     · intro g' hg'
       rcases mem_set_imp _ _ _ _ hg' with e | e
@@ -161,7 +168,7 @@ theorem add_inv {s s' : WL} {sender tip stage : Nat} {ms : List Member} (hi : Wl
     have r := addLoop_spec _ _ _ _ _ _ _ _ _ hi.flat_sorted hloop
     apply tipped_inv
     have hv := hi.valid hk
-    refine ⟨?_, r.sorted, hi.stages_ok, fun _ => ⟨r.cap rfl hc.1, hc.2⟩, hi.fees, hi.bal, hi.burnt, fun _ => ⟨?_, hv.2⟩⟩
+    refine ⟨?_, r.sorted, hi.stages_ok, fun _ => ⟨r.cap rfl hc.1, hc.2⟩, hi.fees, hi.bal, hi.burnt, fun _ => ⟨?_, hv.2⟩, hi.other⟩
     rotate_right
     · intro x hx
       rcases (r.mem x).mp hx with h1 | h1
@@ -175,8 +182,8 @@ theorem add_inv {s s' : WL} {sender tip stage : Nat} {ms : List Member} (hi : Wl
 theorem RemoveSpec.le {as n st r n' st' r'} (q : RemoveSpec as n st r n' st' r') : n' ≤ n := by
   have := q.count; have := q.shrink; omega
 
-theorem remove_inv {s s' : WL} {sender now tip stage : Nat} {as : List Nat} (hi : WlInv s) (hk : s.kind ≠ .immutable)
-    (h : execRemoveMembers s sender now tip stage as = .ok s') : WlInv s' := by
+theorem remove_inv {s s' : WL} {al : Bool} {tip : Tip} {stage : Nat} {as : List Nat} (hi : WlInv s) (hk : s.kind ≠ .immutable)
+    (h : execRemoveMembers s al tip stage as = .ok s') : WlInv s' := by
   unfold execRemoveMembers at h
   split at h
   · exact absurd h (by simp)
@@ -188,8 +195,6 @@ theorem remove_inv {s s' : WL} {sender now tip stage : Nat} {as : List Nat} (hi 
     rename_i g hg
     split at h
     · exact absurd h (by simp)
-    split at h
-    · exact absurd h (by simp)
     rename_i num st removed hloop
     simp only [Except.ok.injEq] at h; subst h
     have hmem : g ∈ s.stages := List.mem_of_getElem? hg
@@ -198,7 +203,7 @@ theorem remove_inv {s s' : WL} {sender now tip stage : Nat} {as : List Nat} (hi 
     apply tipped_inv
     have hset := stageTotal_set s.stages stage g { g with members := st, count := g.count - removed } hg
     have hv := hi.valid hk
-    refine ⟨?_, hi.flat_sorted, ?_, fun _ => ⟨Nat.le_trans q.le hc.1, hc.2⟩, hi.fees, hi.bal, hi.burnt, fun _ => ⟨hv.1, ?_⟩⟩
+    refine ⟨?_, hi.flat_sorted, ?_, fun _ => ⟨Nat.le_trans q.le hc.1, hc.2⟩, hi.fees, hi.bal, hi.burnt, fun _ => ⟨hv.1, ?_⟩, hi.other⟩
     rotate_right
     · intro g' hg'
       rcases mem_set_imp _ _ _ _ hg' with e | e
@@ -221,14 +226,12 @@ theorem remove_inv {s s' : WL} {sender now tip stage : Nat} {as : List Nat} (hi 
   · -- flat
     split at h
     · exact absurd h (by simp)
-    split at h
-    · exact absurd h (by simp)
     rename_i num st removed hloop
     simp only [Except.ok.injEq] at h; subst h
     have q := removeLoop_spec _ _ _ _ _ _ _ hi.flat_sorted hloop
     apply tipped_inv
     have hv := hi.valid hk
-    refine ⟨?_, q.sorted, hi.stages_ok, fun _ => ⟨Nat.le_trans q.le hc.1, hc.2⟩, hi.fees, hi.bal, hi.burnt, fun _ => ⟨?_, hv.2⟩⟩
+    refine ⟨?_, q.sorted, hi.stages_ok, fun _ => ⟨Nat.le_trans q.le hc.1, hc.2⟩, hi.fees, hi.bal, hi.burnt, fun _ => ⟨?_, hv.2⟩, hi.other⟩
     rotate_right
     · intro x hx; exact hv.1 x ((q.mem x).mp hx).1
     have h1 := hi.count_total
@@ -236,13 +239,9 @@ theorem remove_inv {s s' : WL} {sender now tip stage : Nat} {as : List Nat} (hi 
     simp only [storedTotal] at h1 ⊢
     omega
 
-theorem addStage_inv {s s' : WL} {sender now tip start stop : Nat} {ms : List Member} (hi : WlInv s) (hk : s.kind ≠ .immutable)
-    (h : execAddStage s sender now tip start stop ms = .ok s') : WlInv s' := by
+theorem addStage_inv {s s' : WL} {al hf : Bool} {tip : Tip} {ms : List Member} (hi : WlInv s) (hk : s.kind ≠ .immutable)
+    (h : execAddStage s al hf tip ms = .ok s') : WlInv s' := by
   unfold execAddStage at h
-  split at h
-  · exact absurd h (by simp)
-  split at h
-  · exact absurd h (by simp)
   split at h
   · exact absurd h (by simp)
   dsimp only at h
@@ -254,7 +253,7 @@ theorem addStage_inv {s s' : WL} {sender now tip start stop : Nat} {ms : List Me
   have r := addLoop_spec _ _ _ _ _ _ _ _ _ sortedKeys_nil hloop
   apply tipped_inv
   have hv := hi.valid hk
-  refine ⟨?_, hi.flat_sorted, ?_, fun _ => ⟨r.cap rfl hc.1, hc.2⟩, hi.fees, hi.bal, hi.burnt, fun _ => ⟨hv.1, ?_⟩⟩
+  refine ⟨?_, hi.flat_sorted, ?_, fun _ => ⟨r.cap rfl hc.1, hc.2⟩, hi.fees, hi.bal, hi.burnt, fun _ => ⟨hv.1, ?_⟩, hi.other⟩
   rotate_right
   · intro g' hg'
     rcases List.mem_append.mp hg' with e | e
@@ -275,17 +274,15 @@ theorem addStage_inv {s s' : WL} {sender now tip start stop : Nat} {ms : List Me
     · simp only [List.mem_singleton] at e; subst e
       refine ⟨r.sorted, ?_⟩
       simp only []
-      by_cases hf : s.kind.isFlex = true
-      · rw [if_pos hf]; have := r.added; simp only [List.length_nil] at this; omega
-      · rw [if_neg hf]
-        have hf' : s.kind.isFlex = false := by simpa using hf
-        exact (addLoop_fresh_length hloop (sorted_prep hf' ms)).symm
+      by_cases hf' : s.kind.isFlex = true
+      · rw [if_pos hf']; have := r.added; simp only [List.length_nil] at this; omega
+      · rw [if_neg hf']
+        have hf'' : s.kind.isFlex = false := by simpa using hf'
+        exact (addLoop_fresh_length hloop (sorted_prep hf'' ms)).symm
 
-theorem removeStage_inv {s s' : WL} {sender now tip stage : Nat} (hi : WlInv s) (hk : s.kind ≠ .immutable)
-    (h : execRemoveStage s sender now tip stage = .ok s') : WlInv s' := by
+theorem removeStage_inv {s s' : WL} {al : Bool} {tip : Tip} {stage : Nat} (hi : WlInv s) (hk : s.kind ≠ .immutable)
+    (h : execRemoveStage s al tip stage = .ok s') : WlInv s' := by
   unfold execRemoveStage at h
-  split at h
-  · exact absurd h (by simp)
   split at h
   · exact absurd h (by simp)
   split at h
@@ -300,28 +297,12 @@ theorem removeStage_inv {s s' : WL} {sender now tip stage : Nat} (hi : WlInv s) 
   have htd := stageTotal_take_drop s.stages stage
   have hv := hi.valid hk
   refine ⟨?_, hi.flat_sorted, ?_, fun _ => ⟨by simp only []; omega, hc.2⟩, hi.fees, hi.bal, hi.burnt,
-    fun _ => ⟨hv.1, fun g' hg' => hv.2 g' (List.mem_of_mem_take hg')⟩⟩
+    fun _ => ⟨hv.1, fun g' hg' => hv.2 g' (List.mem_of_mem_take hg')⟩, hi.other⟩
   · have h1 := hi.count_total
     simp only [storedTotal] at h1 ⊢
     omega
   · intro g' hg'
     exact hi.stages_ok g' (List.mem_of_mem_take hg')
-
-theorem env_inv {s : WL} (admins : List Nat) (start stop : Nat) (times : List (Nat × Nat)) (hi : WlInv s) :
-    WlInv { s with admins := admins, start := start, stop := stop, stages := setTimes s.stages times } := by
-  have r := setTimes_spec s.stages times
-  refine ⟨?_, hi.flat_sorted, ?_, hi.capacity, hi.fees, hi.bal, hi.burnt, fun hk => ⟨(hi.valid hk).1, ?_⟩⟩
-  rotate_right
-  · intro g hg
-    obtain ⟨g0, h0, hm, _⟩ := r.2.2 g hg
-    rw [AllValid, hm]; exact (hi.valid hk).2 g0 h0
-  · have h1 := hi.count_total
-    simp only [storedTotal] at h1 ⊢
-    rw [r.1]; exact h1
-  · intro g hg
-    obtain ⟨g0, h0, hm, hcnt⟩ := r.2.2 g hg
-    have := hi.stages_ok g0 h0
-    rw [hm, hcnt]; exact this
 
 /-- every successful message preserves the invariant -/
 theorem exec_inv {s s' : WL} {op : Op} (hi : WlInv s) (h : exec s op = .ok s') : WlInv s' := by
@@ -332,69 +313,36 @@ theorem exec_inv {s s' : WL} {op : Op} (hi : WlInv s) (h : exec s op = .ok s') :
   have hk' : s.kind ≠ .immutable := by
     intro e; rw [e] at hk; exact hk (by decide)
   cases op with
-  | addMembers sender now tip stage ms => exact add_inv hi hk' h
-  | removeMembers sender now tip stage as => exact remove_inv hi hk' h
-  | addStage sender now tip start stop ms =>
+  | addMembers al hf tip stage ms => exact add_inv hi hk' h
+  | removeMembers al tip stage as => exact remove_inv hi hk' h
+  | addStage al hf tip ms =>
     dsimp only at h
     split at h
     · exact addStage_inv hi hk' h
     · exact absurd h (by simp)
-  | removeStage sender now tip stage =>
+  | removeStage al tip stage =>
     dsimp only at h
     split at h
     · exact removeStage_inv hi hk' h
     · exact absurd h (by simp)
-  | increaseLimit sender now funds limit => exact incr_inv hi hk' h
-  | env admins start stop times =>
-    simp only [Except.ok.injEq] at h; subst h
-    exact env_inv _ _ _ _ hi
+  | increaseLimit al funds limit => exact incr_inv hi hk' h
+  | other al tip =>
+    dsimp only at h
+    split at h
+    · simp only [Except.ok.injEq] at h; subst h
+      exact tipped_inv _ hi
+    · exact absurd h (by simp)
 
 
 /-! ## Instantiate establishes the invariant -/
 
-theorem addLoop_len_le (cfg : LoopCfg) (limit : Nat) :
-    ∀ (l : List Member) (n : Nat) (st : List Member) (a n' : Nat) (st' : List Member) (a' : Nat),
-      addLoop cfg limit l (n, st, a) = .ok (n', st', a') → st'.length ≤ st.length + l.length := by
-  intro l
-  induction l with
-  | nil =>
-    intro n st a n' st' a' h
-    simp only [addLoop, Except.ok.injEq, Prod.mk.injEq] at h
-    obtain ⟨_, rfl, _⟩ := h; simp
-  | cons m ms ih =>
-    intro n st a n' st' a' h
-    rw [addLoop_cons] at h
-    by_cases c1 : (cfg.checkLimit && decide (n ≥ limit)) = true
-    · rw [if_pos c1] at h; exact absurd h (by simp)
-    rw [if_neg c1] at h
-    by_cases c2 : (!validAddr m.1) = true
-    · rw [if_pos c2] at h; exact absurd h (by simp)
-    rw [if_neg c2] at h
-    by_cases c3 : whaleExceeded cfg.whale m.2 = true
-    · rw [if_pos c3] at h; exact absurd h (by simp)
-    rw [if_neg c3] at h
-    by_cases hhas : hasM m.1 st = true
-    · rw [if_pos hhas] at h
-      by_cases hrej : cfg.rejectDup = true
-      · rw [if_pos hrej] at h; exact absurd h (by simp)
-      rw [if_neg hrej] at h
-      have := ih _ _ _ _ _ _ h; simp only [List.length_cons]; omega
-    · rw [if_neg hhas] at h
-      have hnot : m.1 ∉ keys st := (hasM_false_iff _ _).mp (by simpa using hhas)
-      have := ih _ _ _ _ _ _ h
-      rw [length_saveM_new m st hnot] at this
-      simp only [List.length_cons]; omega
-
 theorem sorted_zero_map (l : List Nat) : SortedKeys ((sortDedup l).map (fun a => ((a, 0) : Member))) := by
   unfold SortedKeys; rw [keys_map_zero]; exact sorted_sortDedup _
 
-theorem instFlat_spec {k : Kind} {w : Option Nat} {limit : Nat} {ms : List Member} {num : Nat} {st : List Member}
-    (h : instFlatMembers k w limit ms = .ok (num, st)) : num = st.length ∧ SortedKeys st ∧ num ≤ limit ∧ AllValid st := by
-  unfold instFlatMembers at h
-  dsimp only at h
-  split at h
-  · exact absurd h (by simp)
-  rename_i hlim
+/-- one member list of an instantiate: the returned count is the number of entries stored -/
+theorem instList_spec {k : Kind} {w : Option Nat} {limit : Nat} {ms : List Member} {num : Nat} {st : List Member}
+    (h : instList k w limit (prep k ms) = .ok (st, num)) : num = st.length ∧ SortedKeys st ∧ AllValid st := by
+  unfold instList at h
   split at h
   · -- flex
     split at h
@@ -403,10 +351,9 @@ theorem instFlat_spec {k : Kind} {w : Option Nat} {limit : Nat} {ms : List Membe
     simp only [Except.ok.injEq, Prod.mk.injEq] at h
     obtain ⟨rfl, rfl⟩ := h
     have r := addLoop_spec _ _ _ _ _ _ _ _ _ sortedKeys_nil hloop
-    have hb := addLoop_len_le _ _ _ _ _ _ _ _ _ hloop
-    have hc := r.count
-    simp only [List.length_nil] at hc hb
-    refine ⟨by omega, r.sorted, by omega, ?_⟩
+    have ha := r.added
+    simp only [List.length_nil] at ha
+    refine ⟨by omega, r.sorted, ?_⟩
     intro x hx
     rcases (r.mem x).mp hx with h1 | h1
     · simp [keys] at h1
@@ -419,84 +366,45 @@ theorem instFlat_spec {k : Kind} {w : Option Nat} {limit : Nat} {ms : List Membe
     simp only [Except.ok.injEq, Prod.mk.injEq] at h
     obtain ⟨rfl, rfl⟩ := h
     have r := saveAll_fresh_length hsave (sorted_prep hf' ms)
-    refine ⟨r.2.1.symm, r.1, by omega, ?_⟩
+    refine ⟨r.2.1.symm, r.1, ?_⟩
     intro x hx
     exact saveAll_valid _ _ _ hsave x ((r.2.2 x).mp hx)
 
 theorem instStages_spec (k : Kind) (w : Option Nat) (limit : Nat) :
-    ∀ (ts : List (Nat × Nat)) (mss : List (List Member)) (num : Nat) (gs : List Stage) (n : Nat),
-      instStages k w limit ts mss num = .ok (gs, n) →
-      n = num + stageTotal gs ∧ (∀ g ∈ gs, SortedKeys g.members ∧ g.count = g.members.length ∧ AllValid g.members) ∧
-      stageTotal gs ≤ (mss.map (fun ms => (prep k ms).length)).sum := by
-  intro ts
-  induction ts with
+    ∀ (mss : List (List Member)) (num : Nat) (gs : List Stage) (n : Nat),
+      instStages k w limit mss num = .ok (gs, n) →
+      n = num + stageTotal gs ∧ gs.length = mss.length ∧
+      (∀ g ∈ gs, SortedKeys g.members ∧ g.count = g.members.length ∧ AllValid g.members) := by
+  intro mss
+  induction mss with
   | nil =>
-    intro mss num gs n h
+    intro num gs n h
     simp only [instStages, Except.ok.injEq, Prod.mk.injEq] at h
     obtain ⟨rfl, rfl⟩ := h
-    exact ⟨by simp [stageTotal], by simp, by simp [stageTotal]⟩
-  | cons t ts ih =>
-    intro mss num gs n h
-    cases mss with
-    | nil =>
-      simp only [instStages, Except.ok.injEq, Prod.mk.injEq] at h
-      obtain ⟨rfl, rfl⟩ := h
-      exact ⟨by simp [stageTotal], by simp, by simp [stageTotal]⟩
-    | cons ms mss =>
-      rw [instStages] at h
-      split at h
-      · -- flex
-        split at h
-        · exact absurd h (by simp)
-        rename_i n0 st added hloop
-        split at h
-        · exact absurd h (by simp)
-        rename_i gs' n' hrec
-        simp only [Except.ok.injEq, Prod.mk.injEq] at h
-        obtain ⟨rfl, rfl⟩ := h
-        have r := addLoop_spec _ _ _ _ _ _ _ _ _ sortedKeys_nil hloop
-        have hb := addLoop_len_le _ _ _ _ _ _ _ _ _ hloop
-        have ha := r.added
-        simp only [List.length_nil] at ha hb
-        have q := ih mss _ _ _ hrec
-        refine ⟨?_, ?_, ?_⟩
-        · rw [stageTotal_cons]; simp only []; omega
-        · intro g hg
-          rcases List.mem_cons.mp hg with e | e
-          · subst e
-            refine ⟨r.sorted, by simp only []; omega, ?_⟩
-            intro x hx
-            rcases (r.mem x).mp hx with h1 | h1
-            · simp [keys] at h1
-            · exact r.valid x h1
-          · exact q.2.1 g e
-        · rw [stageTotal_cons]; simp only [List.map_cons, List.sum_cons]; omega
-      · rename_i hf
-        have hf' : k.isFlex = false := by simpa using hf
-        split at h
-        · exact absurd h (by simp)
-        rename_i st hsave
-        split at h
-        · exact absurd h (by simp)
-        rename_i gs' n' hrec
-        simp only [Except.ok.injEq, Prod.mk.injEq] at h
-        obtain ⟨rfl, rfl⟩ := h
-        have r := saveAll_fresh_length hsave (sorted_prep hf' ms)
-        have q := ih mss _ _ _ hrec
-        refine ⟨?_, ?_, ?_⟩
-        · rw [stageTotal_cons]; simp only []; omega
-        · intro g hg
-          rcases List.mem_cons.mp hg with e | e
-          · subst e
-            refine ⟨r.1, by simp only []; omega, ?_⟩
-            intro x hx
-            exact saveAll_valid _ _ _ hsave x ((r.2.2 x).mp hx)
-          · exact q.2.1 g e
-        · rw [stageTotal_cons]; simp only [List.map_cons, List.sum_cons]; omega
+    exact ⟨by simp [stageTotal], rfl, by simp⟩
+  | cons ms mss ih =>
+    intro num gs n h
+    rw [instStages] at h
+    split at h
+    · exact absurd h (by simp)
+    rename_i st added hl
+    split at h
+    · exact absurd h (by simp)
+    rename_i gs' n' hrec
+    simp only [Except.ok.injEq, Prod.mk.injEq] at h
+    obtain ⟨rfl, rfl⟩ := h
+    have r := instList_spec hl
+    have q := ih _ _ _ hrec
+    refine ⟨?_, by simp [q.2.1], ?_⟩
+    · rw [stageTotal_cons]; simp only []; omega
+    · intro g hg
+      rcases List.mem_cons.mp hg with e | e
+      · subst e; exact ⟨r.2.1, r.1, r.2.2⟩
+      · exact q.2.2 g e
 
 theorem tiers_zero : tiers 0 = 0 := by decide
 
-/-- what a successful instantiate of a fee-charging kind went through -/
+/-- a successful instantiate establishes the invariant -/
 theorem inst_inv {k : Kind} {m : InstMsg} {s : WL} (h : instantiate k m = .ok s) : WlInv s := by
   unfold instantiate at h
   split at h
@@ -508,7 +416,7 @@ theorem inst_inv {k : Kind} {m : InstMsg} {s : WL} (h : instantiate k m = .ok s)
     · exact absurd h (by simp)
     simp only [Except.ok.injEq] at h; subst h
     have hs := sorted_zero_map (keys m.members)
-    refine ⟨?_, (foldl_saveM_spec _ _ sortedKeys_nil).1, by simp, fun hk => absurd rfl hk, ?_, rfl, rfl, fun hk => absurd rfl hk⟩
+    refine ⟨?_, (foldl_saveM_spec _ _ sortedKeys_nil).1, by simp, fun hk => absurd rfl hk, ?_, rfl, rfl, fun hk => absurd rfl hk, rfl⟩
     · simp only [storedTotal, stageTotal_nil]; rw [foldl_saveM_fresh_length hs]; rfl
     · simp [tiers_zero]
   · rename_i hk
@@ -529,12 +437,6 @@ theorem inst_inv {k : Kind} {m : InstMsg} {s : WL} (h : instantiate k m = .ok s)
     simp only [ne_eq, Decidable.not_not] at hfee
     split at h
     · exact absurd h (by simp)
-    split at h
-    · exact absurd h (by simp)
-    split at h
-    · exact absurd h (by simp)
-    split at h
-    · exact absurd h (by simp)
     rename_i msgs hmsgs
     split at h
     · exact absurd h (by simp)
@@ -545,28 +447,38 @@ theorem inst_inv {k : Kind} {m : InstMsg} {s : WL} (h : instantiate k m = .ok s)
     obtain ⟨x, hx, hs⟩ := settle_fee emptyBank m.self payment
     rw [hs] at hbank; simp only [Except.ok.injEq] at hbank; subst hbank
     have hl : m.memberLimit ≤ k.maxMembers := by omega
-    split at h
+    by_cases ht : k.isTiered = true
     · -- tiered
+      simp only [ht, if_true] at h
       split at h
       · exact absurd h (by simp)
-      rename_i hsum
       split at h
       · exact absurd h (by simp)
       rename_i gs num hst
+      split at h
+      · exact absurd h (by simp)
+      rename_i hcap
       simp only [Except.ok.injEq] at h; subst h
-      have r := instStages_spec _ _ _ _ _ _ _ _ hst
-      refine ⟨?_, sortedKeys_nil, fun g hg => ⟨(r.2.1 g hg).1, (r.2.1 g hg).2.1⟩, fun _ => ⟨?_, hl⟩, ?_, rfl, ?_,
-        fun _ => ⟨by intro x hx; simp [keys] at hx, fun g hg => (r.2.1 g hg).2.2⟩⟩
+      have r := instStages_spec _ _ _ _ _ _ _ hst
+      refine ⟨?_, sortedKeys_nil, fun g hg => ⟨(r.2.2 g hg).1, (r.2.2 g hg).2.1⟩, fun _ => ⟨?_, hl⟩, ?_, rfl, ?_,
+        fun _ => ⟨by intro x hx; simp [keys] at hx, fun g hg => (r.2.2 g hg).2.2⟩, rfl⟩
       · simp only [storedTotal, List.length_nil]; omega
       · simp only []; omega
       · simp only []; rw [hfee]; rfl
       · simp only [emptyBank]; omega
-    · split at h
+    · have ht' : k.isTiered = false := by simpa using ht
+      simp only [ht', Bool.false_eq_true, if_false] at h
+      split at h
       · exact absurd h (by simp)
-      rename_i num st hfl
+      split at h
+      · exact absurd h (by simp)
+      rename_i st num hfl
+      split at h
+      · exact absurd h (by simp)
+      rename_i hcap
       simp only [Except.ok.injEq] at h; subst h
-      have r := instFlat_spec hfl
-      refine ⟨?_, r.2.1, by simp, fun _ => ⟨r.2.2.1, hl⟩, ?_, rfl, ?_, fun _ => ⟨r.2.2.2, by simp⟩⟩
+      have r := instList_spec hfl
+      refine ⟨?_, r.2.1, by simp, fun _ => ⟨by simp only []; omega, hl⟩, ?_, rfl, ?_, fun _ => ⟨r.2.2, by simp⟩, rfl⟩
       · simp only [storedTotal, stageTotal_nil]; omega
       · simp only []; rw [hfee]; rfl
       · simp only [emptyBank]; omega
